@@ -148,12 +148,17 @@ func getFields(n map[string]ast.Node) (map[string]fields.Field, error) {
 
 			switch x := n.(type) {
 			case *ast.Field:
-				if len(x.Names) == 1 && !isPrivate(x) {
-					f, skip := getField(x.Names[0].Name, x, nil)
+				// a declaration can hold several names that share one type: A, B int32
+				for _, name := range x.Names {
+					if isPrivate(&ast.Field{Names: []*ast.Ident{name}}) {
+						continue
+					}
+					f, skip := getField(name.Name, x, nil)
 					if !skip {
 						parent.Children = append(parent.Children, f)
 					}
-				} else if len(x.Names) == 0 && !isPrivate(x) {
+				}
+				if len(x.Names) == 0 && !isPrivate(x) {
 					f, skip := getField(fmt.Sprintf("%s", x.Type), x, nil)
 					f.Embedded = true
 					if !skip {
